@@ -171,6 +171,21 @@ def body(case):
 
     damp = case['aesthetics'] == 'damp'
     nf, ni = run(fl, iv)
+    if case['aesthetics'] == 'nothing' and len(nl) >= 2:
+        # "any new grid": every output pixel is a function of its own wavelength, so the same wavelengths listed from red to blue give
+        # the same pixels in reverse (no aesthetics, which works along the pixel order)
+        if with_ivar:
+            rf, ri = call(combine1fiber, ll.copy(), fl.copy(), nl[::-1].copy(), objivar=iv.copy(), **kwargs)
+        else:
+            rf, ri = call(combine1fiber, ll.copy(), fl.copy(), nl[::-1].copy(), **kwargs)
+        with judge('reversed-grid'):
+            a_, b_ = np.asarray(ni, dtype='f8'), np.asarray(ri, dtype='f8')[::-1]
+            check(a_.shape == b_.shape and bool(np.array_equal(a_ > 0, b_ > 0)) and bool(np.allclose(a_, b_, rtol=1e-7, atol=0)), 'output-grid-listed-in-reverse-gives-other-weights',
+                  lambda: dict(weighted_forward=int((a_ > 0).sum()), weighted_reversed=int((b_ > 0).sum())))
+            fa, fb = np.asarray(nf, dtype='f8'), np.asarray(rf, dtype='f8')[::-1]
+            sel = a_ > 0
+            check(bool(np.allclose(fa[sel], fb[sel], rtol=1e-7, atol=1e-9 * max(1e-300, float(np.abs(fa[sel]).max()) if sel.any() else 1.0))), 'output-grid-listed-in-reverse-gives-other-flux')
+        note_label('reversed-grid')
     with judge('basic'):
         nf = np.asarray(nf, dtype='f8')
         ni = np.asarray(ni, dtype='f8')
